@@ -119,7 +119,17 @@ static void o_bytes(const void *p, size_t n)
 	const unsigned char *b = p;
 	o_sp();
 	fputc('x', O_FP);
-	for (k = 0; k < n; k++) fprintf(O_FP, "%02x", b[k]);
+	{	/* same text as "%02x" per byte, without a formatted-output call per byte (dumps run to megabytes) */
+		static const char hx[] = "0123456789abcdef";
+		char tmp[1024];
+		size_t j = 0;
+		for (k = 0; k < n; k++) {
+			tmp[j++] = hx[b[k] >> 4];
+			tmp[j++] = hx[b[k] & 15];
+			if (j == sizeof(tmp)) { fwrite(tmp, 1, j, O_FP); j = 0; }
+		}
+		if (j) fwrite(tmp, 1, j, O_FP);
+	}
 	o_need_sp = 1;
 }
 static void o_str(const char *s) { if (s) o_bytes(s, strlen(s)); else o_bytes("", 0); }
